@@ -667,7 +667,18 @@ func (p *Parser) parseTernaryExpression(condition ast.Expression) ast.Expression
 		Condition: condition,
 	}
 	p.nextToken() //skip the '?'
-	precedence := p.curPrecedence()
+
+	//
+	// Both arms are complete expressions.
+	//
+	// (We used to parse them with the binding-power of whatever
+	// token the first arm started with.  For a name or a number
+	// that is the lowest there is, but an arm which started with
+	// "(", "[" or "-" stopped early: "x ? (1) + 2 : 3" was rejected,
+	// and "a ? (b) : c ? d : e" slipped past the check for nested
+	// ternary expressions above.)
+	//
+	precedence := LOWEST
 	expression.IfTrue = p.parseExpression(precedence)
 
 	// error?
